@@ -126,6 +126,136 @@ fn alpha_tall(cfg: &Cfg) -> Vec<Op> {
     v
 }
 
+/// A call may hold any number of functions. From every state reachable by two (thorough:
+/// three) single-function calls on a filled 3x5 screen, EVERY concatenation of 2..=4 base
+/// sequences is delivered as ONE feed_str call and judged by the same oracle.
+pub struct SysMulti {
+    composites: Vec<Op>,
+}
+
+const MULTI_BASE: &[&str] = &[
+    "\n", "\x1bM", "\x1b[!p", "\x1b[2;3r", "\x1b[H", "\x1b[5;1H", "\x1b[3;1H", "x", "\x1b[S", "\x1b[L", "\x1b[?1049h", "\x1b[?1049l",
+    "\x1b[r", "\x1b[2J", "\x1b[?6h",
+];
+
+fn multi_base(tier: Tier) -> &'static [&'static str] {
+    match tier {
+        Tier::Quick => MULTI_BASE,
+        Tier::Thorough => MULTI_BASE,
+    }
+}
+
+impl SysMulti {
+    fn new(tier: Tier) -> SysMulti {
+        let base = multi_base(tier);
+        let mut out: Vec<String> = vec![];
+        let mut level: Vec<String> = base.iter().map(|s| s.to_string()).collect();
+        for _ in 2..=4 {
+            let mut next = vec![];
+            for l in &level {
+                for b in base {
+                    next.push(format!("{}{}", l, b));
+                }
+            }
+            out.extend(next.iter().cloned());
+            level = next;
+        }
+        SysMulti { composites: out.iter().map(|s| Op::raw(s)).collect() }
+    }
+}
+
+impl System for SysMulti {
+    type St = Vt;
+    fn init(&self, cfg: &Cfg) -> Vt {
+        SysTall.init(cfg)
+    }
+    fn step(&self, _cfg: &Cfg, vt: &mut Vt, op: &Op, out: Option<&mut Out>) {
+        judged_step(vt, op, out)
+    }
+    fn key(&self, vt: &Vt) -> u128 {
+        fingerprint(vt)
+    }
+    fn on_state(&self, _cfg: &Cfg, _h: &[&Op], _vt: &mut Vt, rebuild: &dyn Fn() -> Vt, out: &mut Out) {
+        for comp in &self.composites {
+            let mut v = rebuild();
+            let before = out.violations.len();
+            crate::engine::watch_note(&comp.text);
+            judged_step(&mut v, comp, Some(out));
+            out.count("multi_function_calls");
+            if out.violations.len() > before {
+                // name the call: the history shown is the state it was made in
+                if let Some(last) = out.violations.last_mut() {
+                    last.detail = format!("in ONE call {}: {}", esc(&comp.text), last.detail);
+                }
+                return;
+            }
+        }
+    }
+}
+
+fn alpha_multi_q(_cfg: &Cfg) -> Vec<Op> {
+    multi_base(Tier::Quick).iter().map(|s| Op::raw(s)).collect()
+}
+fn alpha_multi_t(_cfg: &Cfg) -> Vec<Op> {
+    multi_base(Tier::Thorough).iter().map(|s| Op::raw(s)).collect()
+}
+
+fn multi_part<'a>(tier: Tier, sys: &'a SysMulti) -> Part<'a, SysMulti> {
+    Part {
+        name: "multi-function-calls",
+        sys,
+        cfgs: cfgs(&[(3, 5)], &[Some(0)]),
+        alphabet: match tier {
+            Tier::Quick => &alpha_multi_q,
+            Tier::Thorough => &alpha_multi_t,
+        },
+        depth: tier.pick(2, 3),
+        seconds: tier.pick(25.0, 2400.0),
+        validated: true,
+        nontrivial: Some("multi_function_calls"),
+    }
+}
+
+/// Wide screens: every count 0..=cols+2 of the in-row functions (REP, ICH, DCH, ECH, a
+/// text of that length), each in a call of its own after the cursor was placed (and a
+/// character printed) by an earlier call.
+fn alpha_wide(cfg: &Cfg) -> Vec<Op> {
+    let cols = cfg.cols;
+    let mut v: Vec<Op> = vec![];
+    for c0 in [1, 2, cols / 2, cols - 1] {
+        v.push(Op::raw(&format!("\x1b[1;{}H=", c0)));
+        v.push(Op::raw(&format!("\x1b[2;{}H", c0)));
+    }
+    v.push(Op::raw("\x1b[4h"));
+    v.push(Op::raw("\x1b[?7l"));
+    for n in 0..=cols + 2 {
+        for f in ['b', '@', 'P', 'X', 'C', 'D'] {
+            v.push(Op::raw(&format!("\x1b[{}{}", n, f)));
+        }
+        if n >= 2 {
+            let s: String = (0..n).map(|i| char::from_u32('a' as u32 + (i % 26) as u32).unwrap()).collect();
+            v.push(Op::raw(&s));
+        }
+    }
+    v
+}
+
+fn wide_part(tier: Tier) -> Part<'static, SysTall> {
+    Part {
+        name: "wide-screens",
+        sys: &SysTall,
+        cfgs: match tier {
+            Tier::Quick => cfgs(&[(18, 2), (40, 2), (66, 3)], &[Some(0)]),
+            Tier::Thorough => cfgs(&[(17, 2), (18, 2), (33, 2), (40, 2), (64, 2), (66, 3), (80, 3), (130, 2)], &[Some(0)]),
+        },
+        alphabet: &alpha_wide,
+        depth: 2,
+        seconds: tier.pick(15.0, 1800.0),
+        validated: true,
+        nontrivial: Some("calls_with_changed_rows"),
+    }
+}
+
 fn tall_rows(tier: Tier) -> Vec<(usize, usize)> {
     let rows: Vec<usize> = match tier {
         Tier::Quick => (5..=18).chain([23, 24, 25, 31, 32, 33, 63, 64, 65, 66, 127, 128, 129, 130]).collect(),
@@ -220,7 +350,10 @@ pub fn run(ctx: &Ctx) -> Report {
     run_part(ctx, &mut rep, &deep_part(ctx.tier));
     run_part(ctx, &mut rep, &tall_part(ctx.tier));
     run_part(ctx, &mut rep, &tall_part2(ctx.tier));
-    rep.rule = "BFS over op histories; every feed_str/resize transition compares the view before and after the call cell by cell (char + pen) against Changes.lines; non-trivial = calls after which at least one visible row differs; tall-screens: from a screen whose neighbouring rows all differ, 2 columns x 5..130 rows (thorough: every height 5..136 and around 192, 256), every single-row function at every row and every region function (SU, SD, LF on the bottom margin, RI on the top margin, IL, wrap on the bottom margin) for the region bounds listed in DESIGN, screen switches, resets and resizes; depth 2 on 9- and 12-row screens".into();
+    run_part(ctx, &mut rep, &wide_part(ctx.tier));
+    let sm = SysMulti::new(ctx.tier);
+    run_part(ctx, &mut rep, &multi_part(ctx.tier, &sm));
+    rep.rule = "BFS over op histories; every feed_str/resize transition compares the view before and after the call cell by cell (char + pen) against Changes.lines; non-trivial = calls after which at least one visible row differs; tall-screens: from a screen whose neighbouring rows all differ, 2 columns x 5..130 rows (thorough: every height 5..136 and around 192, 256), every single-row function at every row and every region function (SU, SD, LF on the bottom margin, RI on the top margin, IL, wrap on the bottom margin) for the region bounds listed in DESIGN, screen switches, resets and resizes; depth 2 on 9- and 12-row screens; wide-screens: 18..66 (thorough ..130) columns, every count 0..=cols+2 of REP/ICH/DCH/ECH/CUF/CUB and every text length in a call of its own after a placement call, depth 2; multi-function-calls: from every state two (thorough three) calls deep on a filled 3x5 screen, every concatenation of 2..=4 of 15 base sequences delivered as ONE call".into();
     rep.assumptions = vec![
         "only cells (char + pen) are compared, not soft-wrap marks (the statement says cells)".into(),
         "a row index that did not exist before the call counts as changed".into(),
@@ -235,6 +368,13 @@ pub fn replay(ctx: &Ctx, v: &Value) -> bool {
     }
     if v["part"] == "tall-screens" {
         return replay_part(ctx, &tall_part(Tier::Thorough), v);
+    }
+    if v["part"] == "multi-function-calls" {
+        let sm = SysMulti::new(tier);
+        return replay_part(ctx, &multi_part(tier, &sm), v);
+    }
+    if v["part"] == "wide-screens" {
+        return replay_part(ctx, &wide_part(Tier::Thorough), v);
     }
     if v["part"] == "tall-screens-depth2" {
         return replay_part(ctx, &tall_part2(Tier::Thorough), v);
